@@ -460,7 +460,7 @@ PROPS["C07"] = {
 
 PROPS["C04"] = {
     "kani_units": ["U12", "U23", "U24"],
-    "verus_units": [],
+    "verus_units": ["iter_reposition"],
     "level": "other",
     "technique": "Kani/CBMC contracts on the real btree node operations (array operations complete over ORDER=8; rebalance with child I/O replaced by contracts)",
     "claim": "Node level only: remove_from / shift_from preserve the order and content of the remaining separators and children and keep the node packed; number_separator / last_separator_index / need_rebalance are exact; Node::rebalance (borrow from left, borrow from right, merge; leaf and inner nodes) preserves the in-order sequence of separators and children across parent and siblings, moves exactly one separator through the parent, and releases exactly the merged-away node. Iterator semantics and the whole-tree invariant over histories are not covered.",
@@ -516,6 +516,9 @@ UNIT_META = {
                      "assumes": ["captured variables of the closure become &mut parameters of a wrapper (identifier rewrites listed in extraction_notes)",
                                  "pushing a Set onto the pending change set, Db::commit_raw (success appends the pending operations in order; failure leaves the destination unchanged), mem::take, Vec::clone and the progress timer are replaced by their contracts (rewrites listed in extraction_notes)",
                                  "the progress counter ncommits does not overflow u64 (explicit precondition)"]},
+    "iter_reposition": {"functions": ["btree::iter::BTreeIterator::{next_backend,seek_backend,seek_backend_to_last}"],
+                        "assumes": ["the `&mut self` receiver is replaced by its fields as parameters (Verus has no `&mut` pattern bindings); rewrites listed in extraction_notes",
+                                    "BTree::open under the table lock returns the tree as of the given record; BTreeIterState::{seek,seek_to_last} position the abstract cursor as asked; BTreeIterState::next answers from the cursor (contracts assumed: the node-level walk is not under contract)"]},
     "ref_counter": {"functions": ["table::ValueTable::change_ref (fragment)"], "assumes": ["Buf::read_rc models the entry buffer positioned at the counter"]},
     "U1": {
         "functions": ["index::Entry::{new,address_bits,last_address,address,partial_key,extract_key,is_empty,empty,as_u64,from_u64}",
